@@ -56,6 +56,13 @@ changes (C04-m5, C10-m6, C14-m4) turned out to be caught by a random draw of the
 input family; thirteen changes that were reported through a broken obligation alone (`no-failing-input-found`) were used to extend the oracles
 until ten of them are reported with a concrete failing input.  Changes to *translated* functions are always
 caught twice: the regenerated definition no longer satisfies the theorem (broken obligation) and the oracle finds an input.
+Wave 6 (session 3; six changes, C05 C07 C11 C15 C16 C20, asked for "a rarely taken branch, a helper, a default, a cache"): one caught at once with a
+failing input (C20-m9, a dropped `flow_type` argument behind a new default), two through an obligation only (C05-m9 a tolerance inside `sign`,
+C15-m9 memoised conversion inputs), three missed (C07-m9 a cache on the short-time model keyed on `t_s`, C11-m9 a `GFunction` kept and refilled instead of
+replaced, C16-m9 `isclose` in the half-open vertex rule).  All six are now reported with a concrete failing input; the additions are the
+hair's-breadth excess family, three object-reuse scenarios (second borehole on one short-time model, re-bracketed family on a used GHE, second
+conversion of one exchanger) and ulp-level points next to vertex levels, plus the regenerated tests of the ray loop.  The lesson repeats pattern (4):
+every one of the reuse misses was an object used twice where the harness had built a fresh one each time.
 """
 p = os.path.join(V, "DESIGN.md")
 s = open(p).read()
